@@ -60,6 +60,20 @@ class Multiplication:
       return self
     else:
       s, sn = self._segment_and_segment_name(segment)
+      if copy_names is not None:
+        # the requested names are checked before anything is changed
+        copy_names = list(copy_names)
+        if len(copy_names) != factor - 1:
+          raise gfapy.ArgumentError(
+            "{} names for the copies are needed ".format(factor - 1)+
+            "({} given)".format(len(copy_names)))
+        for i, cn in enumerate(copy_names):
+          gfapy.Field._validate_gfa_field(cn,
+              s._field_datatype(s.__class__.NAME_FIELD), "name")
+          if self.line(cn) is not None or cn in copy_names[:i]:
+            raise gfapy.NotUniqueError(
+              "The name {} of a copy of segment {} ".format(cn, sn)+
+              "is not unique")
       if track_origin and not s.get(origin_tag):
         s.set(origin_tag, sn)
       self.__divide_segment_and_connection_counts(s, factor)
